@@ -1644,6 +1644,21 @@ def early_return(source: str) -> str:
         if_stmt = funcdef.body[-2]
 
         retval = ret_stmt.value.id
+
+        # The assignments may only be dropped if nothing but the final return reads the variable:
+        # not when it is declared global/nonlocal, and not when a nested scope closes over it.
+        declared_shared = any(
+            retval in node.names for node in core.walk(funcdef, (ast.Global, ast.Nonlocal))
+        )
+        nested_scope_types = (ast.FunctionDef, ast.AsyncFunctionDef, ast.Lambda, ast.GeneratorExp)
+        read_by_nested_scope = any(
+            any(core.walk(scope, ast.Name(id=retval)))
+            for scope in core.walk(funcdef, nested_scope_types)
+            if scope is not funcdef
+        )
+        if declared_shared or read_by_nested_scope:
+            continue
+
         recursive_last_if_nodes = [if_stmt]
         recursive_last_nonif_nodes = []
         while recursive_last_if_nodes:
